@@ -142,6 +142,8 @@ func (r *replayer) taskPendingQuiet() bool {
 // redo repeats the user operation of the step that was interrupted, if its effect is not persisted.
 func (r *replayer) redo(t *rapid.T, s hstep) {
 	switch s.Kind {
+	case "tx":
+		r.step(t, s) // the unconfirmed transaction is announced again after the restart (processing it twice is harmless)
 	case "import", "importJSON":
 		r.step(t, s) // state-based already: imports only if the wallet is not listed
 	case "remove":
@@ -192,7 +194,7 @@ func propC06(t *rapid.T) {
 		twin.flag("equal-length-reorg-tail")
 	}
 	script := twin.script
-	want := observe(t, twin.env)
+	want := comparable(observe(t, twin.env), script)
 	histKey := hkey(strings.Join(twin.journal, "\n"))
 	twin.close()
 	// crash-free replay: number of commits, and sanity of the recording
@@ -212,7 +214,7 @@ func propC06(t *rapid.T) {
 			}
 			r.converge(t)
 			total = ctl.Commits() - base
-			got = observe(t, r.env)
+			got = comparable(observe(t, r.env), script)
 		}()
 		if strings.Join(got, "\n") != strings.Join(want, "\n") {
 			t.Fatalf("HARNESS: crash-free replay of the recorded script differs from the recording run\n%s  history:\n  %s", diffObs(want, got), twin.journalTail(30))
@@ -253,6 +255,10 @@ func propC06(t *rapid.T) {
 			for i := 0; i < len(script); i++ {
 				s := script[i]
 				r.step(t, s)
+				if os.Getenv("VERIF_DEBUG") != "" {
+					sh, _ := r.env.W.SyncedTo()
+					fmt.Fprintf(os.Stderr, "DEBUG c=%d step %d %s synced=%d node=%d pending=%d frozen=%v commits=%d\n", c, i, s.Kind, sh, r.node.Height(), len(pendingStore(t, r.env)), ctl.Frozen(), ctl.Commits())
+				}
 				if !ctl.Frozen() {
 					continue
 				}
@@ -326,7 +332,7 @@ func propC06(t *rapid.T) {
 			if ctl.Frozen() {
 				t.Fatalf("HARNESS: still frozen")
 			}
-			got := observe(t, r.env)
+			got := comparable(observe(t, r.env), script)
 			if strings.Join(got, "\n") != strings.Join(want, "\n") {
 				t.Fatalf("crash after wallet-database commit %d of %d (during a %q step, restart mode %s, %d crash(es)): the state after restart and catch-up differs from the run that never stopped\n%s  replay log:\n    %s\n  history:\n  %s",
 					c, total, crashStep, mode, crashes, diffObs(want, got), strings.Join(r.log, "\n    "), twin.journalTail(30))
